@@ -40,7 +40,8 @@ ASSUMPTIONS = [
 ]
 CORR = ["flip", "flip", "flip", "other-key", "window", "reparent", "wrong-root", "swap-certs",
         "p384-leaf", "k1-leaf", "p384-inter", "boundary-window", "rekey-att", "bundled-root",
-        "reparent-resigned", "reparent-resigned", "self-issued"]
+        "reparent-resigned", "reparent-resigned", "self-issued", "append-unsigned",
+        "extend-resigned"]
 KNOWN_SIG = "quote-certified-directly-by-x509-accepted"
 FLIP_FIELDS = {"quote": ["message", "custom_data", "signature"],
                "attestation": ["message", "key", "auth_data", "signature"]}
@@ -71,7 +72,7 @@ def cases(draw, tier):
                      "win": draw(st.sampled_from(["expired", "not-yet", "expired-1h",
                                                   "not-yet-1h", "expired-30m", "not-yet-30m"])),
                      "bwin": draw(st.sampled_from(["ends-in-30m", "started-30m-ago", "ends-in-1h",
-                                                   "started-1h-ago"]))})
+                                                   "started-1h-ago", "no-expiry"]))})
     return {"spec": spec, "corruptions": corr,
             # UTC offset of the host the verification runs on (seconds)
             "tz_offset": draw(st.sampled_from([0, 0, -10800, 3600, 19800, -43200, 50400])),
@@ -228,6 +229,19 @@ def apply(c):
                     nm, v.keys[nm].public_key(), "root" if new == "sgx_root" else new,
                     v.keys[new], windows.get(nm, "valid"))))
                 labels.append("reparent-resigned:x509-skips-issuer")
+        elif kind in ("append-unsigned", "extend-resigned"):
+            # bytes after the structure the message holds: part of what was signed, or not
+            nm = ("quote", "attestation")[k["el"] % 2]
+            if not claim(nm):
+                continue
+            extra = bytes([1 + k["bit"]]) * (1 + k["pos"] % 5)
+            m = bytes.fromhex(els[nm]["message"]) + extra
+            els[nm]["message"] = m.hex()
+            if kind == "append-unsigned":
+                broken.add(nm)
+            else:
+                signer = v.keys["attestation"] if nm == "quote" else v.keys[v.parent[nm]]
+                els[nm]["signature"] = certs.sign_p256(signer, m).hex()
         elif kind == "self-issued":
             # a certificate of the chain is replaced by a self-signed one over the SAME key
             # (issuer name = its own name): everything below it still verifies, it does not
